@@ -527,6 +527,20 @@ def np_unique(eng, args, kw):
     return NDArr(out)
 
 
+def np_sort(eng, args, kw):
+    x = args[0]
+    if kw or len(args) != 1 or not isinstance(x, NDArr) or len(x.shape) != 1:
+        raise EngineError('np.sort form')
+    AXIOMS_USED.add('np.sort(small 1-D array) = its values in ascending order (comparisons decided by forking)')
+    out = []
+    for v in flat(x.data):
+        pos = len(out)
+        while pos > 0 and eng.decide(r_cmp('<', v, out[pos - 1])):
+            pos -= 1
+        out.insert(pos, v)
+    return NDArr(out)
+
+
 def np_allclose(eng, args, kw):
     r = np_isclose(eng, args, kw)
     if isinstance(r, NDArr):
@@ -660,6 +674,7 @@ NP = Namespace('np', {
     'cumsum': Builtin('np.cumsum', np_cumsum),
     'flip': Builtin('np.flip', np_flip),
     'unique': Builtin('np.unique', np_unique),
+    'sort': Builtin('np.sort', np_sort),
     'allclose': Builtin('np.allclose', np_allclose),
     'meshgrid': Builtin('np.meshgrid', np_meshgrid),
     'repeat': Builtin('np.repeat', np_repeat),
@@ -1548,9 +1563,16 @@ def _unkey(k):
     return k.v if isinstance(k, SymKey) else k
 
 
+def _sym_key(key):
+    """a key that is symbolic, or a tuple with a symbolic component"""
+    if isinstance(key, tuple):
+        return any(_sym_key(x) for x in key)
+    return isinstance(key, (SV, CX))
+
+
 def dict_find(eng, d, key):
     """the stored key equal to `key` (forking on symbolic equalities), or None"""
-    symbolic = isinstance(key, (SV, CX)) or any(isinstance(k, SymKey) for k in d)
+    symbolic = _sym_key(key) or any(isinstance(k, SymKey) for k in d)
     if not symbolic:
         return key if key in d else None
     for k in list(d):
@@ -1786,7 +1808,7 @@ def setitem(eng, base, idx, v):
         key = idx.lit() if isinstance(idx, AStr) else idx
         k = dict_find(eng, base, key)
         if k is None:
-            k = SymKey(key) if isinstance(key, (SV, CX)) else key
+            k = SymKey(key) if _sym_key(key) else key
         base[k] = v
         eng.note_write(('dict', base))
         return
